@@ -1121,12 +1121,14 @@ class Exec:
         covered = self.covered
         try:
             while True:
-                if self.cut and (fname, cur) in self.cut:
-                    self.stats["cut"] = self.stats.get("cut", 0) + 1
-                    raise Infeasible()
-                covered.add((fname, cur))
                 n = visits.get(cur, 0) + 1
                 visits[cur] = n
+                if self.cut and (fname, cur) in self.cut:
+                    lim = self.cut[(fname, cur)] if isinstance(self.cut, dict) else 0
+                    if n > lim:            # abandon the path at the (lim+1)-th visit of a cut block
+                        self.stats["cut"] = self.stats.get("cut", 0) + 1
+                        raise Infeasible()
+                covered.add((fname, cur))
                 if n > self.max_loop:
                     self.finding("BOUND", "loop-bound", "%s %s more than %d iterations" % (fname, cur, self.max_loop))
                     raise Abort()
